@@ -8,7 +8,7 @@
 From TU Require Import RNG_Model RNG_Proofs.
 From TU Require Import Base UCD_Model UAX29_Model UAX29_Proofs C15_Model C15_Proofs C15_Seeded C15_SeededProofs
                        C15_Classes C15_Tables C15_TablesProofs C15_TablesFloat C15_Spell C15_SpellProofs.
-From TU Require Import C15_Seam C15_UAX29.
+From TU Require Import C15_Check C15_Seam C15_UAX29.
 From Coq Require Import Lia.
 Close Scope N_scope.
 Open Scope nat_scope.
@@ -266,4 +266,24 @@ Proof.
   unfold dom4 in D. unfold seeded_spell4, spell4.
   destruct (spell_text_total_l _ _ _ (v_f64w (v_nth 1 (v_nth 7 v))) (v_f64w (v_nth 2 (v_nth 7 v))) _ _ (v_n (v_nth 3 v)) _ D) as [t Ht].
   rewrite Ht. reflexivity.
+Qed.
+
+(** an implementation output accepted by the exact line of an in-domain input: both runs printed one text, and
+    that text is the words of the input, each kept / misspelt / corrupted by a chain as [word_result_t] says *)
+Lemma exact4_spec_l v r1 r2 : dom4 v = true -> exact_spell4 v (seeded_spell4 v) (L [r1; r2]) = true ->
+  exists t wc os, r1 = L [list_v n_v t] /\ r2 = r1 /\
+    mode_cfg (v_nat (v_nth 1 v)) (v_bool (v_nth 2 v)) (v_list v_item (v_nth 5 v)) = Some wc /\
+    Forall2 (word_result_t wc (mode_miss (v_nat (v_nth 1 v)) (v_miss (v_nth 6 v)))) (split_ws (v_str (v_nth 4 v))) os /\
+    t = join_sp (keep_some os).
+Proof.
+  intros D H. unfold exact_spell4 in H. apply Bool.andb_true_iff in H as [H _]. apply Bool.andb_true_iff in H as [H _].
+  apply Bool.andb_true_iff in H as [H1 H2]. apply val_eqb_eq in H1, H2. subst r1 r2.
+  unfold dom4 in D. assert (D' := D). unfold dom_ok in D'. apply Bool.andb_true_iff in D' as [D' _].
+  apply Bool.andb_true_iff in D' as [_ Dc].
+  destruct (mode_cfg (v_nat (v_nth 1 v)) (v_bool (v_nth 2 v)) (v_list v_item (v_nth 5 v))) as [wc0|] eqn:Ec; [|discriminate].
+  apply Bool.andb_true_iff in Dc as [Ds _].
+  destruct (spell_text_total_l _ _ _ (v_f64w (v_nth 1 (v_nth 7 v))) (v_f64w (v_nth 2 (v_nth 7 v))) _ _ (v_n (v_nth 3 v)) _ D) as [t Ht].
+  destruct (spell_text_spec_l _ _ _ _ _ _ _ _ _ _ ltac:(intros E; rewrite E in Ds; exact Ds) Ht) as (wc & os & Ec' & Hf & Et).
+  rewrite Ec in Ec'. injection Ec' as <-.
+  exists t, wc0, os. unfold seeded_spell4, spell4. rewrite Ht. cbn [sp_res_v]. repeat split; assumption.
 Qed.
